@@ -124,7 +124,7 @@ class Case:
                                     "encb", "decb", "oneshot", "oneshotb", "padenc", "paddec", "ksblock", "ksblocks",
                                     "applyblocks", "applyblocksb", "seek", "newslice", "debug", "E", "D", "backend", "applyblock", "applyblockb",
                                     "ksdirect", "encio", "decio", "enciob", "deciob", "blockio", "blockiob", "blocksio", "blocksiob",
-                                    "oneshotio", "oneshotiob", "enccf", "deccf", "partial", "partialb", "padencs", "padencb", "paddecs", "paddecb") for o in self.ops)
+                                    "oneshotio", "oneshotiob", "enccf", "deccf", "partial", "partialb", "aliasks", "padencs", "padencb", "paddecs", "paddecb") for o in self.ops)
 
 
 class ExecError(Exception):
